@@ -23,6 +23,8 @@ pub fn format_store(v: &VolCfg) -> Result<Store, String> {
     } else {
         Store::new(dev_len)
     };
+    let mut store = store;
+    store.dirty_medium = v.dirty_medium;
     let st = Rc::new(RefCell::new(DiskState::new(store)));
     st.borrow_mut().log_mode = LogMode::Off;
     let mut opts = fatfs::FormatVolumeOptions::new()
@@ -268,6 +270,7 @@ pub fn draw_vol(rng: &mut Rng, fat: u8, small_root: bool) -> VolCfg {
         status: 0,
         label: rng.chance(1, 4),
         tail_taken: 0,
+        dirty_medium: false,
     }
 }
 
